@@ -408,8 +408,12 @@ class SymDA:
         shifts = dict(shifts or {}, **kw)
         (d, k), = shifts.items()
         self._axis(d)
+        if type(k) is PNum:
+            if not decide(k.z <= 0):
+                raise Unsupported("shift by a positive lag")
+            return _Shifted(self, d, PNum(z3.simplify(-k.z)))
         if not (type(k) in (int, _np.int64, _np.int32) and k <= 0):
-            raise Unsupported("shift by a positive or symbolic lag")
+            raise Unsupported("shift by a positive lag")
         return _Shifted(self, d, -int(k))
 
     # ---- label based selection
@@ -717,15 +721,15 @@ class _Shifted:
         da, d, k = self.da, self.dim, self.k
         if dim != d:
             raise Unsupported("dropna along another dim")
-        if k == 0:
+        if (decide(k.z == 0) if type(k) is PNum else k == 0):
             return da.copy()
         da._force("dropna")
         old = da._ext[d]
-        new = ext_of(old.z - k)
-        if not decide(old.z > k):
+        kz = zl(k)
+        new = ext_of(z3.simplify(old.z - kz))
+        if not decide(old.z > kz):
             raise Unsupported("lag not smaller than the number of samples")
-        W = tm.sym(f"Win[{k}:{old.name}|{old.name}]", old, new, ("real",))
-        ctx().hyps.append((tm.mul(tm.Tr(W), W), tm.I(new), "row window is an isometry"))
+        W = lag_window(old, k, new)
         t = da._side(d, W)
         ext = dict(da._ext)
         ext[d] = new
@@ -830,6 +834,19 @@ class NDView:
         if k.startswith("__"):
             raise AttributeError(k)
         raise Unsupported("ndarray view has no attribute " + k)
+
+
+def lag_window(old, k, new):
+    """the (old x new) isometry selecting rows k..old-1 (k concrete or symbolic); one symbol per (k, old), hypothesis recorded once"""
+    kname = str(z3.simplify(zl(k))) if type(k) is PNum else str(k)
+    name = f"Win[{kname}:{old.name}|{old.name}]"
+    W = tm.sym(name, old, new, ("real",))
+    c = ctx()
+    done = c.notes.setdefault("lag_windows", set())
+    if name not in done:
+        done.add(name)
+        c.hyps.append((tm.mul(tm.Tr(W), W), tm.I(new), "row window is an isometry"))
+    return W
 
 
 def block_tail(total, lead, tail):
